@@ -12,6 +12,10 @@
 //!     transition) every outstanding cookie is decoded by the real `KeySet::decode_cookie`
 //!     and compared with the reference model, after an issue the cookies of the current
 //!     rotation; cookies made by an independent key set with the same ids must fail.
+//! (a2) the same with restarts: alphabet {issue one cookie per algorithm, rotate, restart =
+//!     real `store` + real `load` with history h' for every h' in 0..=4 (thorough 0..=5)}, so the
+//!     provider can hold more (or fewer) keys than its configured history + 1; reference model
+//!     and the decision about the slack after a history-reducing restart: see section (a2).
 //! (b) every byte of a cookie (every key age 0..=h, both algorithms, set straddling the id
 //!     wrap or not) xor every single-bit mask (thorough: every non-zero byte value), and
 //!     every proper prefix of the cookie.
@@ -185,6 +189,9 @@ struct Tally {
     valid: u64,
     expired: u64,
     foreign: u64,
+    reloads: u64,
+    slack_decoded: u64,
+    slack_rejected: u64,
 }
 
 impl Tally {
@@ -194,6 +201,9 @@ impl Tally {
         ctx.add("valid_decoded", self.valid);
         ctx.add("expired_rejected", self.expired);
         ctx.add("foreign_rejected", self.foreign);
+        ctx.add("reloads", self.reloads);
+        ctx.add("reload_slack_decoded", self.slack_decoded);
+        ctx.add("reload_slack_rejected", self.slack_rejected);
     }
 }
 
@@ -389,6 +399,246 @@ fn explore(ctx: &Ctx, cfg: Cfg) {
 }
 
 // ---------------------------------------------------------------------------------
+// (a2) explicit-state search with restarts: store, then load with another history
+// ---------------------------------------------------------------------------------
+//
+// Reference model (statement, restated for a history that changes at a restart). Keys are
+// numbered by the rotation count at which they became newest (generation g, newest = r).
+// H is the currently configured history. Two bounds lo <= m are kept:
+//   g <  lo : the key left the window "current + H previous" at some rotation  -> the cookie
+//             MUST fail ("fails to decode afterwards"; nothing brings a forgotten key back);
+//   g >= m  : the key is among the current and the H previous keys and never had to be
+//             forgotten                                                        -> MUST decode;
+//   lo <= g < m : SLACK. Arises only between a restart with a smaller history h' and the next
+//             rotation (keys older than r-h' that the stored set still holds), and for such
+//             keys if the history is raised again before they were rotated out.
+// rotate: r+=1, lo=max(lo, r-H), m=max(m, lo).   reload(h'): H=h', m=max(m, r-h').
+//
+// Decision on the slack (see notes/gi.md): not judged. C26's expiry clause read literally
+// would demand rejection right after a history-reducing restart, C27's statement ("keys stored
+// are restored on restart, so cookies issued before the restart stay valid"; "restores exactly
+// the key set being stored") demands the opposite for the very same cookies, and C26's own
+// quantifier fixes the history per run and ties expiry to rotation ("rotate on schedule").
+// Both outcomes are therefore accepted in that interval and COUNTED (reload_slack_decoded /
+// reload_slack_rejected) so the evidence shows what the implementation does. After the next
+// rotation the window is strict again.
+
+#[derive(Clone, Copy, Debug)]
+struct RCfg {
+    start: Option<u32>,
+    /// reload histories 0..=hmax
+    hmax: usize,
+}
+
+impl RCfg {
+    fn tag(&self) -> String {
+        match self.start {
+            None => format!("start=new;hmax={}", self.hmax),
+            Some(o) => format!("start={o};hmax={}", self.hmax),
+        }
+    }
+    fn sat(&self) -> u64 {
+        self.hmax as u64 + 2
+    }
+}
+
+struct RSt {
+    prov: KeySetProvider,
+    r: u64,
+    hist: usize,
+    lo: u64,
+    m: u64,
+    out: Vec<std::sync::Arc<Issued>>,
+    ops: Vec<u8>,
+}
+
+type RKey = (u64, usize, usize, u64, u64, BTreeSet<(u64, u8)>);
+
+fn rkey_of(cfg: &RCfg, s: &RSt) -> RKey {
+    let (nkeys, _, _) = probe::meta(&s.prov.get());
+    (
+        s.r.min(cfg.sat() + 1),
+        s.hist,
+        nkeys,
+        s.r - s.lo,
+        s.r - s.m,
+        s.out.iter().map(|c| ((s.r - c.rot).min(cfg.sat()), c.alg)).collect(),
+    )
+}
+
+/// ops: 0 = issue one cookie of each algorithm, 1 = rotate, 2+h' = store + load with history h'
+fn apply_r(ctx: &Ctx, t: &mut Tally, cfg: &RCfg, s: &mut RSt, op: u8) -> String {
+    s.ops.push(op);
+    let trace = || format!("rseq;{};ops={}", cfg.tag(), ops_str(&s.ops));
+    let id0 = cfg.start.unwrap_or(0);
+    let mut obs = String::new();
+    match op {
+        0 => {
+            for alg in 0..2u8 {
+                let pat = (s.ops.len() as u8) % NPAT;
+                let s2c = key_material(alg, pat, 1);
+                let c2s = key_material(alg, pat, 2);
+                let ks = s.prov.get();
+                let bytes = match common::catch(|| ks.encode_cookie(&mk_cookie(alg, &s2c, &c2s))) {
+                    Ok(b) => b,
+                    Err(p) => {
+                        ctx.violation("C26:encode-panic", format!("encode_cookie panicked: {p}"), trace());
+                        return "encode-panic".into();
+                    }
+                };
+                t.issued += 1;
+                let want_id = id0.wrapping_add(s.r as u32);
+                let got_id = bytes.get(0..4).map(|b| u32::from_be_bytes(b.try_into().unwrap()));
+                if got_id != Some(want_id) {
+                    ctx.violation(
+                        "C26:new-cookie-not-newest-key",
+                        format!("cookie issued after {} rotations (history now {}) carries key id {got_id:?}, the newest key has id {want_id}", s.r, s.hist),
+                        trace(),
+                    );
+                }
+                obs.push_str(&format!("I{alg}id={got_id:?}:"));
+                if !s.out.iter().any(|c| c.rot == s.r && c.alg == alg) {
+                    s.out.push(std::sync::Arc::new(Issued { bytes, alg, s2c, c2s, rot: s.r }));
+                } else {
+                    let (d, why) = decode_vs(&s.prov, &bytes, alg, &s2c, &c2s);
+                    t.decodes += 1;
+                    if d != Dec::Same {
+                        ctx.violation("C26:valid-cookie-rejected", format!("fresh cookie does not decode to its keys: {d:?} {why}"), trace());
+                    }
+                }
+            }
+        }
+        1 => {
+            if let Err(p) = common::catch(|| s.prov.rotate()) {
+                ctx.violation("C26:rotate-panic", format!("rotate panicked: {p}"), trace());
+                return "rotate-panic".into();
+            }
+            s.r += 1;
+            s.lo = s.lo.max(s.r.saturating_sub(s.hist as u64));
+            s.m = s.m.max(s.lo);
+            obs.push_str("R:");
+        }
+        _ => {
+            let h2 = (op - 2) as usize;
+            let mut file = Vec::new();
+            let loaded = common::catch(|| {
+                s.prov.store(&mut file)?;
+                KeySetProvider::load(&mut std::io::Cursor::new(&file), h2)
+            });
+            match loaded {
+                Ok(Ok((p, _))) => s.prov = p,
+                other => {
+                    ctx.violation(
+                        "C26:reload-fails",
+                        format!("store + load with history {h2} fails: {:?}", other.map(|r| r.map(|_| ()))),
+                        trace(),
+                    );
+                    return "reload-fails".into();
+                }
+            }
+            t.reloads += 1;
+            s.hist = h2;
+            s.m = s.m.max(s.r.saturating_sub(h2 as u64));
+            obs.push_str(&format!("L{h2}:"));
+        }
+    }
+    for c in &s.out {
+        let g = c.rot;
+        if !t.full && op == 0 && g != s.r {
+            continue;
+        }
+        let (d, why) = decode_vs(&s.prov, &c.bytes, c.alg, &c.s2c, &c.c2s);
+        t.decodes += 1;
+        obs.push_str(match d {
+            Dec::Same => "s",
+            Dec::Differs => "d",
+            Dec::Rejected => "x",
+            Dec::Panic => "p",
+        });
+        let age = s.r - g;
+        match d {
+            Dec::Panic => ctx.violation("C26:decode-panic", format!("decode_cookie panicked: {why}"), trace()),
+            Dec::Differs => ctx.violation("C26:decoded-keys-differ", format!("cookie of age {age} decodes to other keys/algorithm ({why})"), trace()),
+            Dec::Same if g >= s.m => t.valid += 1,
+            Dec::Rejected if g < s.lo => t.expired += 1,
+            Dec::Same if g < s.lo => ctx.violation(
+                "C26:expired-cookie-accepted",
+                format!("cookie issued {age} rotations ago still decodes; its key left the window (current history {}, oldest key that may be valid is {} rotations old)", s.hist, s.r - s.lo),
+                trace(),
+            ),
+            Dec::Rejected if g >= s.m => ctx.violation(
+                "C26:valid-cookie-rejected",
+                format!("cookie issued {age} rotations ago is rejected although the configured history is {} and its key was never rotated out (restarts with other histories in the trace)", s.hist),
+                trace(),
+            ),
+            Dec::Same => t.slack_decoded += 1,
+            Dec::Rejected => t.slack_rejected += 1,
+        }
+    }
+    let (r, sat) = (s.r, cfg.sat());
+    let mut seen = BTreeSet::new();
+    s.out.retain(|c| (r - c.rot) < sat || seen.insert(c.alg));
+    obs
+}
+
+fn explore_reload(ctx: &Ctx, cfg: RCfg) {
+    let init = RSt { prov: Cfg { h: 0, start: cfg.start }.fresh(), r: 0, hist: 0, lo: 0, m: 0, out: vec![], ops: vec![] };
+    let mut t = Tally { full: !ctx.quick(), ..Tally::default() };
+    let mut distinct = Vec::new();
+    let mut maxr = 0u64;
+    let nops = 2 + cfg.hmax as u8 + 1;
+    let stats = common::bfs(
+        vec![init],
+        |s| rkey_of(&cfg, s),
+        |s, _d| {
+            let mut v = Vec::with_capacity(nops as usize);
+            for op in 0..nops {
+                if op >= 2 && (op - 2) as usize == s.hist && s.ops.last().is_some_and(|l| *l >= 2) {
+                    // a second restart with the unchanged history right after a restart: identical state
+                    continue;
+                }
+                let mut n = RSt {
+                    prov: probe::clone_provider(&s.prov),
+                    r: s.r,
+                    hist: s.hist,
+                    lo: s.lo,
+                    m: s.m,
+                    out: s.out.clone(),
+                    ops: s.ops.clone(),
+                };
+                apply_r(ctx, &mut t, &cfg, &mut n, op);
+                maxr = maxr.max(n.r);
+                if n.r >= 1 && !n.out.is_empty() && n.ops.iter().any(|o| *o >= 2) {
+                    distinct.push(common::hash_of(&("reload", cfg.start, rkey_of(&cfg, &n))));
+                }
+                v.push(n);
+            }
+            v
+        },
+        10_000,
+    );
+    t.flush(ctx);
+    ctx.distinct_many(distinct);
+    ctx.add("states", stats.states);
+    ctx.add("transitions", stats.transitions);
+    ctx.add("evaluations", stats.transitions);
+    ctx.add("reload_states", stats.states);
+    ctx.add("reload_transitions", stats.transitions);
+    ctx.max("max_depth", stats.max_depth);
+    ctx.max("max_rotations", maxr);
+    ctx.inc("configs");
+    if stats.fixpoint {
+        ctx.inc("configs_at_fixpoint");
+    } else {
+        ctx.cap_hit(&format!("reload search {}: depth bound reached before fixpoint", cfg.tag()));
+    }
+    ctx.sample(format!(
+        "reload search {}: fixpoint after depth {} with {} abstract states / {} transitions, up to {} rotations",
+        cfg.tag(), stats.max_depth, stats.states, stats.transitions, maxr
+    ));
+}
+
+// ---------------------------------------------------------------------------------
 // (b) tamper / truncation sweep
 // ---------------------------------------------------------------------------------
 
@@ -530,6 +780,21 @@ fn replay(ctx: &Ctx, trace: &str) -> String {
             }
             obs.join("|")
         }
+        "rseq" => {
+            let start = match field(&parts, "start") {
+                Some("new") | None => None,
+                Some(x) => x.parse().ok(),
+            };
+            let hmax = field(&parts, "hmax").and_then(|x| x.parse().ok()).unwrap_or(4);
+            let cfg = RCfg { start, hmax };
+            let mut s = RSt { prov: Cfg { h: 0, start }.fresh(), r: 0, hist: 0, lo: 0, m: 0, out: vec![], ops: vec![] };
+            let mut t = Tally { full: true, ..Tally::default() };
+            let mut obs = Vec::new();
+            for ch in field(&parts, "ops").unwrap_or("").bytes() {
+                obs.push(apply_r(ctx, &mut t, &cfg, &mut s, ch - b'0'));
+            }
+            format!("{} slack_decoded={} slack_rejected={}", obs.join("|"), t.slack_decoded, t.slack_rejected)
+        }
         "tamper" | "trunc" => {
             let Some(cfg) = parse_cfg(&parts) else { return "bad trace".into() };
             let at: usize = field(&parts, "at").and_then(|x| x.parse().ok()).unwrap_or(0);
@@ -578,12 +843,17 @@ fn check() {
         return;
     }
     let hmax = if ctx.quick() { 3 } else { 4 };
+    let rmax = if ctx.quick() { 4 } else { 5 };
     ctx.rule(&format!(
         "(a) history h in 0..={hmax}; start in {{KeySetProvider::new(h)}} + {{one key with id offset 2^32-1-d, d in 0..=h+2}}; \
          all sequences over {{issue-256, issue-512, rotate}} explored breadth first to the fixpoint of the key (rotations sat. h+2, \
          #keys, id offset while the id window touches the wrap, set of (cookie age sat. h+2, algorithm)); every outstanding and one \
          foreign cookie per key slot decoded after every rotation (thorough: after every transition; quick: after an issue only the \
-         cookies of the current rotation and one foreign cookie). (b) every byte of a cookie x every single-bit mask \
+         cookies of the current rotation and one foreign cookie). (a2) start in {{new(0), one key at id offset 2^32-2, 2^32-4}}; all \
+         sequences over {{issue one cookie per algorithm, rotate, restart = real store + real load with history h' for every h' in \
+         0..={rmax}}} to the fixpoint of (rotations sat., configured history, #keys held, distance to the must-fail and must-decode \
+         bounds, cookie ages sat. {rmax}+2); model: see source, slack between a history-reducing restart and the next rotation is counted, \
+         not judged. (b) every byte of a cookie x every single-bit mask \
          (thorough: every non-zero xor value) and every proper prefix, for every key age 0..=h, both algorithms, ids wrapping or not. \
          (c) algorithm x 5 s2c patterns x 5 c2s patterns round trip. Distinct & non-trivial = an abstract state with >=1 rotation and \
          >=1 outstanding cookie, a (config, age, algorithm) tamper base, a grid cell."
@@ -591,6 +861,7 @@ fn check() {
     ctx.assume("AES-SIV behaviour is independent of the random server key values (keys are drawn by the real new_random); outcomes are compared, never key bytes of server keys");
     ctx.assume("states with equal abstract key behave alike: the provider's behaviour depends on ids only through wrapping differences (checked by keeping the id offset in the key in a window of 2h+4 values around the wrap)");
     ctx.assume("history lengths above the enumerated maximum behave like the enumerated ones");
+    ctx.assume("between a restart with a smaller history and the next rotation, cookies of keys beyond the new history that the stored set still holds may decode or fail (C26's expiry clause and C27's 'cookies issued before the restart stay valid' contradict each other there); counted as reload_slack_*, not judged");
 
     // (a)
     let mut cfgs = Vec::new();
@@ -601,7 +872,16 @@ fn check() {
         }
         cfgs.push(Cfg { h, start: Some(0x8000_0000) });
     }
-    common::par_for(cfgs.len() as u64, 1, |i| explore(&ctx, cfgs[i as usize]));
+    // (a2) restarts with another history; longest jobs first
+    let rcfgs: Vec<RCfg> = [None, Some(u32::MAX - 1), Some(u32::MAX - 3)].into_iter().map(|start| RCfg { start, hmax: rmax }).collect();
+    let (nr, na) = (rcfgs.len() as u64, cfgs.len() as u64);
+    common::par_for(nr + na, 1, |i| {
+        if i < nr {
+            explore_reload(&ctx, rcfgs[i as usize]);
+        } else {
+            explore(&ctx, cfgs[(i - nr) as usize]);
+        }
+    });
 
     // (b)
     let masks: Vec<u8> = if ctx.quick() { (0..8).map(|b| 1u8 << b).collect() } else { (1..=255).collect() };
